@@ -44,6 +44,10 @@ FILES = {
     "strings.lbl": b"a = \"it's\"\nb = 'say \"hi\"'\nc = NULL\nd = \"END\"\ne = \"multi\n  line\"\nEND\n",
     "garbage.lbl": b"= = ( }\n",
     "leap.lbl": b"t = 23:59:60\nEND\n",
+    # loads everywhere, but the ODL-family encoders refuse the units (with TypeError, not ValueError)
+    "oddunits.lbl": b"r = 1.5 <W*m**-2*sr**-1>\np = 1 <%>\nEND\n",
+    # loads everywhere, values some encoders refuse
+    "refused.lbl": b"s = {(1, 2)}\nk = ((1, 2), ((3)))\nq = abc <m>\nEND\n",
     # a byte that is not UTF-8 inside the label text
     "latin1.lbl": b'a = "caf\xe9"\nb = 1\nEND\n',
     "latin1comment.lbl": b'/* \xb0 */\na = 1\nEND\n',
